@@ -15,7 +15,7 @@ func c09Sizes() []int64 { return []int64{0, 1, 2047, 2048, 2049} }
 func TestC09(t *testing.T) {
 	r := NewReporter(t)
 	defer r.Done()
-	r.Rule("every tree with <= N nodes (file sizes 0,1,2047,2048,2049), both modes for a subset, plus the directory-shape families of C07 (entries per directory, exact sector fit, depth, many directories, symbolic links) with a reduced offset set: canonical image = one sequential read; then all single ops and op sequences of depth <= 3 (Seek.Read.Read, Read.ReadAt.Read, relative/end seeks, refused seeks followed by reads) over offsets = structural boundaries (metadata end, each file start/end/padded end, pad-area start, size) +-1 and lengths {1,2,2047,2048,2049,65536,65537, to-next-boundary +-1}; oracle = bytes.Reader semantics over the canonical image; distinct by (tree, mode, op sequence)")
+	r.Rule("every tree with <= N nodes (file sizes 0,1,2047,2048,2049), both modes for a subset, plus the directory-shape families of C07 (entries per directory, exact sector fit, depth, many directories, symbolic links) with a reduced offset set: canonical image = one sequential read; then all single ops and op sequences of depth <= 3 (Seek.Read.Read, Read.ReadAt.Read, relative/end seeks, refused seeks followed by reads, one long-lived handle: whole pass, revisits, second pass) over offsets = structural boundaries (metadata end, each file start/end/padded end, pad-area start, size) +-1 and lengths {1,2,2047,2048,2049,65536,65537, to-next-boundary +-1}; oracle = bytes.Reader semantics over the canonical image; distinct by (tree, mode, op sequence)")
 	base := filepath.Join(scratchBase(), sprintf("verifh-c09-%d", os.Getpid()))
 	root := filepath.Join(base, "root")
 	defer os.RemoveAll(base)
@@ -211,6 +211,24 @@ func c09Case(r *Reporter, root, desc string, treeRep any, build func(dir string)
 		var ops []ioOp
 		for i := int64(0); i <= announced/int64(bs)+1; i++ {
 			ops = append(ops, ioOp{Kind: "read", N: bs})
+		}
+		run(ops)
+	}
+	// one handle used for a long time: a whole sequential pass, then back to every kept boundary (positional and by
+	// seeking), then a second whole pass - whatever the view caches per file must survive being revisited
+	{
+		var ops []ioOp
+		for i := int64(0); i <= announced/65536+1; i++ {
+			ops = append(ops, ioOp{Kind: "read", N: 65536})
+		}
+		for _, b := range bounds {
+			if b < announced {
+				ops = append(ops, ioOp{Kind: "readat", N: 2049, Off: b}, ioOp{Kind: "seek", Off: b, Whence: io.SeekStart}, ioOp{Kind: "read", N: 100})
+			}
+		}
+		ops = append(ops, ioOp{Kind: "seek", Off: 0, Whence: io.SeekStart})
+		for i := int64(0); i <= announced/30000+1; i++ {
+			ops = append(ops, ioOp{Kind: "read", N: 30000})
 		}
 		run(ops)
 	}
